@@ -205,6 +205,7 @@ func c03StageRefs(c *Ctx) error {
 	if err != nil {
 		return err
 	}
+	nDiff := 0
 	for i, it := range items {
 		key := fmt.Sprintf("%s %s", c03ModeName(it.mode), h.Q(it.raw))
 		st.Count(key, !bytes.Equal(it.raw, it.out))
@@ -217,6 +218,9 @@ func c03StageRefs(c *Ctx) error {
 			continue
 		}
 		if !bytes.Equal(mod, it.out) {
+			nDiff++
+		}
+		if !bytes.Equal(mod, it.out) && nDiff <= 6 {
 			c.R.Add(h.Finding{Stage: st.Name, Kind: "diff", What: "model.c03.replent", Input: key, Hex: h.Hex(it.raw), Impl: h.Q(it.out), Model: h.Q(mod)})
 		}
 		// the property on the real output
